@@ -131,7 +131,7 @@ func ctlFlagReduce(xs []int) bool {
 
 // ---- narrowsucc: run detection with a 16-bit successor; the start sentinel
 // 0xFFFF makes glyph 0 look like a continuation.
-func ctlNarrowSucc(gids []uint16) int {
+func ctlSuccTest(gids []uint16) int {
 	runs := 0
 	prev := uint16(0xFFFF)
 	for _, g := range gids {
@@ -144,7 +144,7 @@ func ctlNarrowSucc(gids []uint16) int {
 }
 
 // the safe twins: widened before the addition; guarded below the maximum
-func ctlNarrowSuccWide(gids []uint16) int {
+func ctlSuccTestWide(gids []uint16) int {
 	runs := 0
 	prev := 0xFFFF
 	for _, g := range gids {
@@ -156,16 +156,38 @@ func ctlNarrowSuccWide(gids []uint16) int {
 	return runs
 }
 
-func ctlNarrowSuccGuard(a, b uint16) bool {
+func ctlSuccTestGuard(a, b uint16) bool {
 	if a == 0xFFFF {
 		return false
 	}
 	return b == a+1
 }
 
+// ---- narrowbound: a count computed in 16 bits (65536 becomes 0) and used
+// as a loop bound.
+func ctlWrapBound(lo, hi uint16, out []byte) []byte {
+	count := hi - lo + 1
+	for i := 0; i < int(count); i++ {
+		out = append(out, 0)
+	}
+	return out
+}
+
+// the safe twin: the sum is shown to fit
+func ctlWrapBoundOK(first, n uint8, out []byte) []byte {
+	if int(first)+int(n) > 255 {
+		return out
+	}
+	for j := int(first); j <= int(first+n); j++ {
+		out = append(out, 0)
+	}
+	return out
+}
+
 // CtlUse2 keeps further examples reachable.
 func CtlUse2(xs []int) bool {
-	_ = ctlNarrowSucc(nil) + ctlNarrowSuccWide(nil)
-	_ = ctlNarrowSuccGuard(1, 2)
+	_ = ctlSuccTest(nil) + ctlSuccTestWide(nil)
+	_ = ctlSuccTestGuard(1, 2)
+	_ = ctlWrapBoundOK(1, 2, ctlWrapBound(1, 2, nil))
 	return ctlFlagReduce(xs)
 }
